@@ -2,7 +2,7 @@
 (* Service alphabet for Compare.tla (the harness emits the same services as ODX XML) and JSON emission. *)
 EXTENDS Compare, Json
 
-\* Session / Reset: two-byte constant prefixes that differ in the first byte
+\* Session / index: two-byte constant prefixes that differ in the first byte ("index" is also the name of a list method)
 \* ReadA / ReadB:   the same one-byte prefix (22), different parameter lists
 \* Free:            no constant prefix at all;   Ping: a request without parameters;   Write: a PHYS-CONST parameter
 \* (a service without request is not valid ODX; Compare.tla keeps hasrq for the classification's sake)
@@ -10,7 +10,7 @@ MCAlphabet == <<
   Service("Session", TRUE, <<Cst("sid", 16), Cst("sub", 1)>>, <<Cst("sid", 80), Cst("sub", 1)>>, <<>>),
   Service("ReadA", TRUE, <<Cst("sid", 34), Val("did", "d1")>>, <<Cst("sid", 98), Val("did", "d1"), Val("data", "d2")>>,
           <<Cst("nr", 127), Cst("sid", 34), Val("nrc", "d1")>>),
-  Service("Reset", TRUE, <<Cst("sid", 17), Cst("sub", 1)>>, <<Cst("sid", 81)>>, <<>>),
+  Service("index", TRUE, <<Cst("sid", 17), Cst("sub", 1)>>, <<Cst("sid", 81)>>, <<>>),
   Service("ReadB", TRUE, <<Cst("sid", 34), Val("did", "d1"), Val("x", "d2")>>, <<Cst("sid", 98), Val("x", "d2")>>, <<>>),
   Service("Free", TRUE, <<Val("a", "d1")>>, <<Cst("sid", 64)>>, <<>>),
   Service("Ping", TRUE, <<>>, <<Cst("sid", 65)>>, <<>>),
